@@ -34,7 +34,7 @@ ASSUMPTIONS = [
     "documented errors = the exception classes of pyoak.legacy.error; an operation that raises anything else gives no verdict (counted)",
     "operations expected to be rejected that are accepted give no verdict (counted) and join the history",
 ]
-MUST_SEE = ["receiver_with_node_or_scalar_field", "collision_two_levels_below_new", "nodes_above_failing_descendant_checked", "transform_of_a_detached_tree_rejected", "replace_key_init_false_in_subclass", "same_id_pair_as_children", "transform_result_is_an_attached_root", "detached_receiver_children_reused", "falsy_replacement_with_parent", "visitor_reused_after_rejection", "wrapper_reusing_own_child", "replace_with_own_child", "adopted_children_checked", "runtime_only_child_field_transform", "rule_replaces_children_of_its_copy", "receiver_below_falsy_parent", 
+MUST_SEE = ["collision_in_sequence_declared_before_single_fields", "receiver_with_node_or_scalar_field", "collision_two_levels_below_new", "nodes_above_failing_descendant_checked", "transform_of_a_detached_tree_rejected", "replace_key_init_false_in_subclass", "same_id_pair_as_children", "transform_result_is_an_attached_root", "detached_receiver_children_reused", "falsy_replacement_with_parent", "visitor_reused_after_rejection", "wrapper_reusing_own_child", "replace_with_own_child", "adopted_children_checked", "runtime_only_child_field_transform", "rule_replaces_children_of_its_copy", "receiver_below_falsy_parent", 
     "rejected_ASTNodeDuplicateChildrenError", "rejected_ASTNodeParentCollisionError", "rejected_ASTNodeIDCollisionError", "rejected_ASTNodeRegistryCollisionError",
     "rejected_ASTNodeReplaceError", "rejected_ASTNodeReplaceWithError", "rejected_ASTTransformError", "failing_element_not_first", "frames_compared", "nested_failing_element", "two_collided_children",
 ]
@@ -104,12 +104,13 @@ def run_shard(ctx):
 
         def gen_reject():
             """returns (opname, where, receiver, args, thunk) or None"""
+            R.last_replace_extra = None
             # the kinds with recorded findings end the history, so they are drawn less often
             kind = rng.choices(
                 ["dup_seq", "dup_two_fields", "parent_collision", "parent_collision_nested", "id_collision", "attach_collision", "attach_collision_nested",
                  "replace_keys", "replace_dup", "replace_parent_collision", "rw_has_parent", "rw_wrong_class", "rw_none_required", "rw_attach_fails",
-                 "transform_raises", "transform_removes_required", "transformer_raises", "rw_clone_of_attached", "parent_collision_two", "transform_runtime_children", "rw_own_child", "rw_wrapper_reuses_child", "transform_reused_visitor", "rw_falsy_with_parent", "transform_result_refused", "replace_dup_detached_receiver", "replace_same_id_pair", "transform_on_detached_tree", "rw_collision_two_levels_down"],
-                [3, 3, 1, 1, 3, 3, 1, 3, 1, 1, 3, 3, 3, 1, 3, 3, 3, 2, 2, 2 if f"{P}Seq" in U.cls else 0, 2, 2, 2, 2, 2, 2, 2, 2, 2],
+                 "transform_raises", "transform_removes_required", "transformer_raises", "rw_clone_of_attached", "parent_collision_two", "transform_runtime_children", "rw_own_child", "rw_wrapper_reuses_child", "transform_reused_visitor", "rw_falsy_with_parent", "transform_result_refused", "replace_dup_detached_receiver", "replace_same_id_pair", "transform_on_detached_tree", "rw_collision_two_levels_down", "replace_collision_in_sequence_declared_first"],
+                [3, 3, 1, 1, 3, 3, 1, 3, 1, 1, 3, 3, 3, 1, 3, 3, 3, 2, 2, 2 if f"{P}Seq" in U.cls else 0, 2, 2, 2, 2, 2, 2, 2, 2, 2, 2],
             )[0]
             where = rng.choice(["first", "middle", "last"])
             if kind == "dup_seq":
@@ -306,6 +307,24 @@ def run_shard(ctx):
                 V = type("RV5", (ASTTransformVisitor,), {f"visit_{P}Leaf": up, f"visit_{P}Leaf2": boom})
                 ctx.count("transform_of_a_detached_tree_rejected")
                 return ("transform", "nested", top, [], lambda: V().transform(top))
+            if kind == "replace_collision_in_sequence_declared_first":
+                # the receiver's class declares a sequence child field before its single child fields; the new value of the
+                # sequence holds a node of another parent, the changes also hand an (innocent) attached root to a later single
+                # field: refused when the sequence element is met - the root that comes later in child order was never reached
+                x = attached_with_parent()
+                if x is None:
+                    return None
+                recv = U.cls[f"{P}SeqFirst"](items=(leaf(), leaf()), alpha=leaf(), origin=NO)
+                top = U.cls[f"{P}Un"](child=recv, origin=NO) if rng.random() < 0.5 else None
+                innocent = U.cls[f"{P}Un"](child=leaf(), origin=NO)
+                F.add(recv, top, innocent)
+                if id(x) in F.objs_of(recv) or (top is not None and id(x) in F.objs_of(top)):
+                    return None
+                seq, pos = place(x, 1, where)
+                R.last_replace = ("items", list(seq))
+                R.last_replace_extra = {"omega": innocent}
+                ctx.count("collision_in_sequence_declared_before_single_fields")
+                return ("replace", where, recv, list(seq) + [innocent], lambda: recv.replace(items=tuple(seq), omega=innocent))
             if kind == "replace_same_id_pair":
                 # a node is detached while a reference to it is kept, the same node is created again (same id); later both
                 # objects are handed to replace() of an attached node: two children with one id, refused before anything moves
@@ -591,6 +610,21 @@ def run_shard(ctx):
                     ctx.count("duplicate_ids_arguments_checked")
                     if any(dd.get("obj") in arg_sub and dd.get("obj") not in recv_sub for dd in diff if dd["node"] != "<registry>"):
                         return generic + "|supplied-child-changed-although-duplicates-are-detected-up-front", roles
+                # supplied children that come, in child order (fields in declaration order), after the first child that has
+                # another parent are never reached: they come out unchanged
+                extra_ = getattr(R, "last_replace_extra", None) or {}
+                if ename == "ASTNodeParentCollisionError":
+                    seq_all = []
+                    for fld in U.child_fields(type(recv).__name__):
+                        v = val_ if fld.name == fname_ else extra_.get(fld.name, getattr(recv, fld.name))
+                        seq_all += [] if v is None else list(v) if isinstance(v, (list, tuple)) else [v]
+                    first_bad = next((i for i, c in enumerate(seq_all) if (before["nodes"].get(id(c)) or (0, None))[1] not in (None, id(recv)) and not (before["nodes"].get(id(c)) or (True,))[0]), None)
+                    if first_bad is not None:
+                        later = {id(x) for c in seq_all[first_bad + 1:] for x in struct_subtree(U, c)} - {id(x) for c in seq_all[: first_bad + 1] for x in struct_subtree(U, c)} - recv_sub
+                        if later:
+                            ctx.count("supplied_children_after_the_failure_checked")
+                            if any(dd.get("obj") in later for dd in diff):
+                                return generic + "|supplied-child-after-the-failing-one-changed", roles
                 safe = set()
                 if ename != "ASTNodeDuplicateChildrenError":  # duplicates are detected before any child is adopted
                     fname, val = R.last_replace
